@@ -109,6 +109,13 @@ def cases(tier, seed, args):
                             scaling=[None, 'trace', 'eigenvalue'][(i // 2) % 3], layout='CF'[(i // 4) % 2], **base(i)))
         for i in range(n * 2):
             out.append(dict(t='ban', gain=float(10.0 ** rng.integers(-6, 7)), nscale=float(10.0 ** rng.integers(-12, 4)), **base(i)))
+        for i in range(6 if q else 24):
+            out.append(dict(t='ban', gain=float(10.0 ** rng.integers(-3, 4)), nscale=float(10.0 ** rng.integers(-6, 4)), real_vector=['onehot', 'real'][i % 2],
+                            **dict(base(i), D=int(rng.integers(2, 6)))))
+        # exactly diagonal noise PSDs with unequal sensor noise powers (uncorrelated, not white), and exactly white ones
+        for i in range(6 if q else 24):
+            out.append(dict(t='gev', use_eig=bool(i % 3 == 2), lead=int(i % 2), layout='C', dtypes='cc', noise_diag=['unequal', 'unequal', 'white'][i % 3],
+                            **dict(base(i), D=int(rng.integers(2, 6)))))
         for i in range(n):
             # '+ban' through the wrapper, for both eigen-solvers (eigh normalises w^H Phi_nn w = 1, eig returns unit 2-norm)
             out.append(dict(t='ban_wrapper', name=['gev+ban', 'rank1_pca+gev+ban', 'mvdr_souden+ban', 'rank1_gev+gev+ban'][i % 4],
@@ -349,15 +356,23 @@ def run_case(case):
             phin = np.ascontiguousarray(phin.real) + np.eye(D) * 1e-3 * np.abs(phin).max()
             fp += ';real_noise'
         ref = int(rng.integers(D))
+        ref_arg = ref
+        if (case['seed'] // 3) % 2:
+            ref_arg = [np.int64(ref), np.int32(ref), np.intp(ref)][case['seed'] % 3]     # as np.argmax / rng.integers return it
+            fp += ';ref=numpy_int'
         if t == 'souden':
             if case.get('lead'):
-                w, exc = _call(bf.get_mvdr_vector_souden, phix[None], phin[None], ref_channel=ref)
+                w, exc = _call(bf.get_mvdr_vector_souden, phix[None], phin[None], ref_channel=ref_arg)
                 w = None if w is None else w[0]
             else:
-                w, exc = _call(bf.get_mvdr_vector_souden, phix, phin, ref_channel=ref)
+                w, exc = _call(bf.get_mvdr_vector_souden, phix, phin, ref_channel=ref_arg)
             rec = dict(kind='souden', ref=ref + 1)
         else:
-            w, exc = _call(bf.get_wmwf_vector, phix, phin, reference_channel=ref, distortion_weight=case['mu'])
+            mu_arg = case['mu']
+            if float(mu_arg) == int(mu_arg) and case['seed'] % 2:
+                mu_arg = [int(mu_arg), np.int64(int(mu_arg)), np.float32(mu_arg)][(case['seed'] // 2) % 3]   # 0, 1, 10, 100 as written by a user
+                fp += f';mu={type(mu_arg).__name__}'
+            w, exc = _call(bf.get_wmwf_vector, phix, phin, reference_channel=ref_arg, distortion_weight=mu_arg)
             rec = dict(kind='wmwf', ref=ref + 1, mu=enc.flt(case['mu']))
         its = [dict(a=Z(a[f]), sigma=enc.flt(sigma[f]), phin=Z(phin[f]), w=[] if w is None else Z(w[f]))
                for f in range(min(F, 8))]
@@ -425,6 +440,10 @@ def run_case(case):
         phin = pd(rng, F, D, min(case['cond'], 1e6))
         phix = pd(rng, F, D, 1e2)
         lead = case['lead']
+        if case.get('noise_diag'):
+            pw = rng.uniform(0.2, 5.0, size=(F, D)) if case['noise_diag'] == 'unequal' else np.repeat(rng.uniform(0.2, 5.0, size=(F, 1)), D, axis=1)
+            phin = np.einsum('fd,de->fde', pw, np.eye(D)).astype(complex)
+            fp += f';noise_diag={case["noise_diag"]}'
         if case.get('level_spread'):
             lv = 10.0 ** rng.choice([0, -13, 5, -20, 8], size=F)
             lv[0], lv[-1] = 1.0, 1e-13
@@ -544,6 +563,10 @@ def run_case(case):
     if t == 'ban':
         phin = pd(rng, F, D, min(case['cond'], 1e4)) * case['nscale']
         w = cvec(rng, F, D) * case['gain']
+        if case.get('real_vector'):
+            # a real-dtype beamforming vector (a one-hot 'ch<k>' selector, a real probe) with a genuinely complex Hermitian noise PSD
+            w = (np.eye(D)[rng.integers(D, size=F)] if case['real_vector'] == 'onehot' else rng.normal(size=(F, D))) * case['gain']
+            fp += f';real_vector={case["real_vector"]}'
         out, exc = _call(bf.blind_analytic_normalization, w, phin)
         its = [dict(phin=Z(phin[f]), w=Z(w[f]), out=[] if out is None else Z(out[f])) for f in range(min(F, 6))]
         recs = [dict(kind='ban', items=its, exc=exc, fp=fp, key=f'ban:{case["seed"]}')]
